@@ -109,6 +109,8 @@ class Repo:
             self.synonym_rewrites = apply_synonyms(self)
             from .peval import partial_evaluate
             self.partially_evaluated = partial_evaluate(self)
+            if self.partially_evaluated:
+                apply_synonyms(self)
 
     def _inline_new_helpers(self):
         """functions that are not in the reviewed baseline table (helpers introduced by a later change) are analysed at
